@@ -20,7 +20,7 @@ F_VARVAL = "zorg.shared.common._var_map_value"
 FILE = "src/zorg/service/templates.py"
 
 
-def init_scenarios(run: Run, model: PyModel) -> None:
+def init_scenarios(run: Run, model: PyModel, rid_as: str | None = None) -> None:
     """Abstract runs of init_from_template over a virtual notes directory with a configured pattern map whose patterns are opaque objects answering
     `match` as the scenario says (nothing is rendered: ZorgTemplateManager.render is a recorded marker): the template rendered is the one of the FIRST
     pattern, in configuration order, that matches -- with that match's groups and nobody else's; no match and no explicit template writes nothing; an
@@ -31,6 +31,10 @@ def init_scenarios(run: Run, model: PyModel) -> None:
 
     fi = model.func(F_INIT)
     n = 0
+
+    def R(rid: str) -> str:
+        return rid_as or rid
+
     scen = [
         # label, which patterns match, explicit template, target exists, overwrite, expected (template name, groups) or None
         ("second and third pattern match", (False, True, True), None, False, False, ("t2.zot", {"g2": "from-P2"})),
@@ -40,6 +44,8 @@ def init_scenarios(run: Run, model: PyModel) -> None:
         ("no pattern matches, explicit template", (False, False, False), "given.zot", False, False, ("given.zot", {})),
         ("target exists, overwrite not requested", (True, True, True), None, True, False, None),
         ("target exists, overwrite requested", (False, True, False), None, True, True, ("t2.zot", {"g2": "from-P2"})),
+        ("target exists, overwrite requested, no pattern matches", (False, False, False), None, True, True, None),
+        ("the caller passes a variable named like a capture", (False, True, False), None, False, False, ("t2.zot", {"g2": "from-P2"})),
     ]
     for label, matches, explicit, exists, overwrite, want in scen:
         W = World(model, files={}, old_map=None, indexed=set(), errors=set(), whitelist=[], contents=({"/Z/new/page.zo": "OLD"} if exists else {}), missing="all-but-contents")
@@ -75,45 +81,50 @@ def init_scenarios(run: Run, model: PyModel) -> None:
         st = State()
         pmap = st.alloc(HObj("dict", fields={Opaque("vpattern", str(k)): vpath(f"t{k}.zot") for k in (1, 2, 3)}))
         kwargs = dict(should_overwrite_existing=overwrite)
+        if "caller passes" in label:
+            kwargs["var_map"] = st.alloc(HObj("dict", fields={"g2": "from-the-caller", "other": "kept"}))
         if explicit:
             kwargs["template"] = vpath(explicit)
         try:
             res = I.run_function(F_INIT, [vpath("/Z"), pmap, vpath("new/page.zo")], kwargs, st=st)
         except Exception as e:  # noqa: BLE001
-            run.undecided("C16.R2", "init_from_template", f"{label}: cannot interpret: {type(e).__name__}: {str(e)[:100]}")
+            run.undecided(R("C16.R2"), "init_from_template", f"{label}: cannot interpret: {type(e).__name__}: {str(e)[:100]}")
             continue
         if len(res) != 1:
-            run.undecided("C16.R2", "init_from_template", f"{label}: {len(res)} abstract outcomes on a concrete scenario")
+            run.undecided(R("C16.R2"), "init_from_template", f"{label}: {len(res)} abstract outcomes on a concrete scenario")
             continue
         v, s = res[0]
         n += 1
         if isinstance(v, Raised) or s.imprecise:
-            run.undecided("C16.R2", "init_from_template", f"{label}: " + (f"raises {v.exc}" if isinstance(v, Raised) else "; ".join(s.imprecise[:2])))
+            run.undecided(R("C16.R2"), "init_from_template", f"{label}: " + (f"raises {v.exc}" if isinstance(v, Raised) else "; ".join(s.imprecise[:2])))
             continue
         written = {k: t for k, t in s.meta.get("vfiles", {}).items()}
         asked = [t[2] for t in s.trace if t[0] == "match"]
         if want is None:
-            rid = "C16.R1" if exists else "C16.R3"
-            run.check(rid, f"{label}: nothing is rendered or written", not written and not rendered, "init_from_template", f"{label}: wrote {sorted(written)} rendered {rendered}",
-                      f"with {label}, init_from_template renders {rendered} and writes {sorted(written)}: " + ("an existing page is overwritten without the user asking" if exists else
-                      "a page is created although no template applies"), file=FILE, node=fi.node)
+            rid = R("C16.R1" if exists and not overwrite else "C16.R3")
+            last = [t[0] for t in s.trace if t[0] in ("unlink", "write_text", "open_w") and t[1] == "/Z/new/page.zo"][-1:]
+            gone = last == ["unlink"]
+            run.check(rid, f"{label}: nothing is rendered or written", not written and not rendered and not gone, "init_from_template", f"{label}: wrote {sorted(written)} rendered {rendered}" + (" target removed" if gone else ""),
+                      f"with {label}, init_from_template renders {rendered} and writes {sorted(written)}{', and removes the existing target' if gone else ''}: " + (
+                          "an existing page is overwritten without the user asking" if exists and not overwrite else "an existing page is lost although no template applies (nothing was to be written)" if exists else
+                          "a page is created although no template applies"), file=FILE, node=fi.node)
             continue
         tname, groups = want
         ok_t = len(rendered) == 1 and isinstance(rendered[0][0], str) and rendered[0][0].rsplit("/", 1)[-1] == tname
-        run.check("C16.R2", f"{label}: the template of the first matching pattern (configuration order) is rendered, once", ok_t, "init_from_template", f"{label}: rendered {[r[0] for r in rendered]}",
+        run.check(R("C16.R2"), f"{label}: the template of the first matching pattern (configuration order) is rendered, once", ok_t, "init_from_template", f"{label}: rendered {[r[0] for r in rendered]}",
                   f"with {label}, the templates rendered are {[r[0] for r in rendered]}, expected {tname} once: a later / earlier pattern wins or the explicit template is ignored", file=FILE, node=fi.node)
         if ok_t:
             vm = rendered[0][1]
-            ok_g = isinstance(vm, dict) and {k: x for k, x in vm.items() if str(k).startswith("g")} == groups
-            run.check("C16.R2", f"{label}: the template variables are the groups of that very match", ok_g, "init_from_template", f"{label}: variables {vm}",
-                      f"with {label}, the template receives the variables {vm}, expected the groups {groups} of the winning match only", file=FILE, node=fi.node)
+            ok_g = isinstance(vm, dict) and {k: x for k, x in vm.items() if str(k).startswith("g")} == groups and ("caller passes" not in label or vm.get("other") == "kept")
+            run.check(R("C16.R2"), f"{label}: the template variables are the groups of that very match", ok_g, "init_from_template", f"{label}: variables {vm}",
+                      f"with {label}, the template receives the variables {vm}, expected the groups {groups} of the winning match only (a variable of the caller with the same name gives way to the capture; its other variables are kept)", file=FILE, node=fi.node)
         ok_w = written == {"/Z/new/page.zo": "RENDERED#1"}
-        run.check("C16.R3", f"{label}: the target, and only the target, receives exactly the rendering", ok_w, "init_from_template", f"{label}: wrote {written}",
+        run.check(R("C16.R3"), f"{label}: the target, and only the target, receives exactly the rendering", ok_w, "init_from_template", f"{label}: wrote {written}",
                   f"with {label}, the files written are {written}, expected only the target /Z/new/page.zo with the rendering", file=FILE, node=fi.node)
         if asked:
-            run.check("C16.R2", f"{label}: patterns are matched against the page's name relative to the notes directory", all(a == "new/page.zo" for a in asked), "init_from_template", f"{label}: matched against {asked[:2]}",
+            run.check(R("C16.R2"), f"{label}: patterns are matched against the page's name relative to the notes directory", all(a == "new/page.zo" for a in asked), "init_from_template", f"{label}: matched against {asked[:2]}",
                       f"the patterns are matched against {asked[:2]} rather than the page path relative to the notes directory ('new/page.zo')", file=FILE, node=fi.node)
-    run.floor("init_from_template scenarios", n, 7)
+    run.floor("init_from_template scenarios", n, 9)
 
 
 def check(run: Run) -> None:
